@@ -248,6 +248,25 @@ def flag_prices_set():
     raise ExtractError("iterators.cc posts_commodities_iterator::reset container not recognised: " + ty)
 
 
+def presence_returns():
+    """commodity.cc compare_by_commodity: for each lot detail X the two `one side has it` branches
+    `if (! aleftcomm.details.X && arightcomm.details.X) … return A;` / `if (aleftcomm.details.X && ! arightcomm.details.X) … return B;`
+    -> {X: (A, B)}  (A: only the right lot has X, B: only the left lot has X)."""
+    text = strip_comments(extract.src("commodity.cc"))
+    body = norm_ws(function_body(text, r"int\s+commodity_t::compare_by_commodity::operator\(\)\(const amount_t \* left,\s*const amount_t \* right\) const\s*\{"))
+    out = {}
+    for x in ("price", "date", "tag", "value_expr"):
+        m = re.search(r"if \(! aleftcomm\.details\.%s && arightcomm\.details\.%s\) \{ (?:DEBUG\([^;]*\); )?return (-?\d+); \} "
+                      r"if \(aleftcomm\.details\.%s && ! arightcomm\.details\.%s\) \{ (?:DEBUG\([^;]*\); )?return (-?\d+); \}" % (x, x, x, x), body)
+        need(m, "commodity.cc compare_by_commodity: presence branches for lot %s not recognised" % x)
+        out[x] = (int(m.group(1)), int(m.group(2)))
+    m = re.search(r"if \(! leftcomm\.has_annotation\(\) && rightcomm\.has_annotation\(\)\) \{ (?:DEBUG\([^;]*\); )?return (-?\d+); \} "
+                  r"else if \(leftcomm\.has_annotation\(\) && ! rightcomm\.has_annotation\(\)\) \{ (?:DEBUG\([^;]*\); )?return (-?\d+); \}", body)
+    need(m, "commodity.cc compare_by_commodity: annotation presence branches not recognised")
+    out["annotation"] = (int(m.group(1)), int(m.group(2)))
+    return out
+
+
 def gen_order_sources():
     cont = containers()
     walks = amounts_walks()
@@ -273,6 +292,9 @@ def gen_order_sources():
           "def collapseTotalsOrder : String := %s" % lean_str(flag_totals_map()), "",
           "/-- iterators.cc posts_commodities_iterator::reset: \"address\" (std::set<commodity_t*>), \"name\" or \"insertion\". -/",
           "def pricesSetOrder : String := %s" % lean_str(flag_prices_set()), "",
+          "/-- commodity.cc compare_by_commodity: (detail, result when only the RIGHT lot has it, result when only the LEFT lot has it). -/",
+          "def lotPresenceReturns : List (String × Int × Int) := ["
+          + ", ".join("(%s, %d, %d)" % (lean_str(k), a, b) for k, (a, b) in presence_returns().items()) + "]", "",
           "end Ledger.Gen"]
     return "\n".join(L) + "\n"
 
